@@ -371,12 +371,22 @@ fn gen_sauce(rng: &mut Rng) -> SauceD {
                 }),
             }
         }
+        // a NUL inside a blank-padded field (title / author / group) is a character like any other; comment lines end at
+        // their first NUL by definition, so they get none
+        if max != 64 && v.len() >= 3 && rng.chance(1, 8) {
+            let at = 1 + rng.usize(v.len() - 2);
+            v[at] = 0;
+            if v[at + 1] == b' ' || v[at + 1] == 0 {
+                v[at + 1] = b'P';
+            }
+        }
         // trailing blanks / NULs are padding by definition: generate them, compare stripped
         if rng.chance(1, 4) && !v.is_empty() {
             let k = rng.usize(v.len().min(4)) + 1;
             let l = v.len();
+            let pad = if rng.chance(1, 3) { 0u8 } else { b' ' };
             for b in v[l - k..].iter_mut() {
-                *b = b' ';
+                *b = pad;
             }
         }
         v
